@@ -115,6 +115,23 @@ Theorem C11_stale_base_refuted :
 Proof. exact stale_base. Qed.
 Print Assumptions C11_stale_base_refuted.
 
+(* the blob store of a working log: an existing content-addressed blob is rewritten in place
+   (truncate, then write); a concurrent checkpoint reading it back as the previous version of a
+   tracked file can observe it empty - a state no serial execution exhibits - and then claims the
+   whole file for its own session.  No journal windows overlap here (known class C11-K5) *)
+Theorem C11_torn_blob_refuted :
+  let progs := wit_blob_progs in
+  let sched := sched_torn_blob in
+  let tr := trace_of progs sched in
+  let c := exec tr (init_config wit_blob_store) in
+  length tr = 16%nat /\ ~ Known_C11 progs sched /\
+  as_blob (wit_blob_store (OBlob 0 7 5)) = [1; 2] /\
+  as_blob (shared c (OBlob 0 7 5)) = [1; 2] /\
+  cp_ids (shared c (OCp 0 7)) = [1; 2] /\
+  as_blob (reg c 1%nat (OBlob 0 7 5)) = [].
+Proof. exact torn_blob. Qed.
+Print Assumptions C11_torn_blob_refuted.
+
 (* ANY schedule: nothing is invented, order is kept (a subsequence of initial ++ appended in
    write order; with distinct identities nothing appears twice), every thread executes a prefix
    of its program *)
